@@ -14,6 +14,8 @@ import (
 
 func init() {
 	vhRegister("VH_C14_Scalar", func(p []int) { VH_C14_Scalar(p[0], p[1], p[2]) })
+	vhRegister("VH_C14_VarLen", func(p []int) { VH_C14_VarLen(p[0], p[1]) })
+	vhRegister("VH_C14_LongString", func(p []int) { VH_C14_LongString(p[0], p[1], p[2]) })
 	vhRegister("VH_C14_Struct", func(p []int) { VH_C14_Struct(p[0], p[1]) })
 }
 
@@ -490,4 +492,60 @@ func VH_C14_Struct(depth, large int) {
 		vhAssert(got[i] == want[i], "rendered document: keys, values, order and nesting")
 	}
 	vhCover("struct")
+}
+
+// VH_C14_VarLen: the variable-length integer in front of strings and opaque values, for every
+// encoding of n bytes (7 value bits per byte, high bit = "another byte follows") at offset off:
+// the decoded value is the little-endian concatenation of the 7-bit groups and exactly n bytes
+// are consumed.
+func VH_C14_VarLen(n, off int) {
+	buf := vhBytes(off + n + 2)
+	want := 0
+	for i := 0; i < n; i++ {
+		b := buf[off+i]
+		if i < n-1 {
+			vhAssume(b&0x80 != 0)
+		} else {
+			vhAssume(b&0x80 == 0)
+		}
+		want |= int(b&0x7f) << uint(7*i)
+	}
+	got, pos := readVariableLength(buf, off)
+	vhAssert(got == want, "variable-length integer value")
+	vhAssert(pos == off+n, "variable-length integer consumes exactly its bytes")
+	vhCover("varlen")
+}
+
+// VH_C14_LongString: a string of n bytes (first two and last two symbolic, the rest a concrete
+// filler) at top level / in an array / in an object: lengths around the 1- to 2-byte boundary of
+// the length prefix and its multiples.
+func VH_C14_LongString(n, pos, large int) {
+	str := make([]byte, n)
+	for i := range str {
+		str[i] = 'a' + byte(i%26)
+	}
+	for _, i := range []int{0, 1, n - 2, n - 1} {
+		c := vhU8()
+		vhAssume(c >= 0x20 && c < 0x7f && c != '"' && c != '\\')
+		str[i] = c
+	}
+	sc := &jv{kind: jString, str: str}
+	doc := sc
+	switch pos {
+	case 1:
+		doc = &jv{kind: jArray, kids: []*jv{jScalar(jLiteral), sc}}
+	case 2:
+		doc = &jv{kind: jObject, kids: []*jv{sc}, keys: [][]byte{vhBytes(2)}}
+	}
+	w := &vw{}
+	w.u8(jTypeByte(doc, large == 1))
+	w.raw(jValue(doc, large == 1))
+	got, err := printJSONData(w.b)
+	vhAssert(err == nil, "no error")
+	want := jPrint(nil, doc, true)
+	vhAssert(len(got) == len(want), "rendered length")
+	for i := 0; i < len(want); i++ {
+		vhAssert(got[i] == want[i], "rendered document text")
+	}
+	vhCover("longstring")
 }
